@@ -523,6 +523,9 @@ fn spawn_async_ao_list_in_task'''),
         ('push-reuses-top-scope-kind', 'brush-core/src/env.rs', 'self.scopes.push((scope_type, ShellVariableMap::default()));', 'self.scopes.push((EnvironmentScope::Local, ShellVariableMap::default()));'),
     ],
     'U15': [
+        ('heredoc-continuation-ignores-escaped-backslash', 'brush-core/src/expansion.rs', "        } else if c == '\\\\' {\n            after_backslash = true;", "        } else if c == '\\\\' {\n            after_backslash = true;\n            result.push(c);"),
+        ('heredoc-continuation-keeps-the-backslash', 'brush-core/src/expansion.rs', "            if c != '\\n' {\n                result.push('\\\\');\n                result.push(c);\n            }", "            result.push('\\\\');\n            if c != '\\n' {\n                result.push(c);\n            }"),
+        ('heredoc-trailing-backslash-lost', 'brush-core/src/expansion.rs', "    if after_backslash {\n        result.push('\\\\');\n    }\n\n    result\n}", "    result\n}"),
         ('noclobber-probe-from-the-process-directory', 'brush-core/src/interp.rs', "                    let expanded_file_path: PathBuf =\n                        shell.absolute_path(Path::new(expanded_fields.remove(0).as_str()));", "                    let expanded_file_path = PathBuf::from(expanded_fields.remove(0));"),
         ('close-removes-entry', 'brush-core/src/openfiles.rs', 'self.files.insert(fd, None).and_then(|f| f)', 'self.files.remove(&fd).and_then(|f| f)'),
         ('add-starts-at-stderr', 'brush-core/src/openfiles.rs', 'const FIRST_NON_STDIO_FD: ShellFd = 3;', 'const FIRST_NON_STDIO_FD: ShellFd = 2;'),
